@@ -30,7 +30,10 @@ type history struct {
 
 	packets      map[uint64]*PacketReport
 	highestAcked uint64
-	nextReport   uint64
+	// acked is false until the first packet has been acknowledged as arrived;
+	// until then highestAcked (0) does not name an acknowledged packet.
+	acked      bool
+	nextReport uint64
 
 	cleanUntil uint64
 }
@@ -93,8 +96,11 @@ func (h *history) onFeedback(ts time.Time, counter uint64, ack acknowledgement) 
 		return 0, false
 	}
 	p.Arrived = ack.arrived
-	if p.Arrived && h.highestAcked < p.SequenceNumber {
-		h.highestAcked = p.SequenceNumber
+	if p.Arrived {
+		h.acked = true
+		if h.highestAcked < p.SequenceNumber {
+			h.highestAcked = p.SequenceNumber
+		}
 	}
 	p.Arrival = ack.arrival
 	p.ECN = ack.ecn
@@ -147,7 +153,7 @@ func (h *history) buildReport() []PacketReport {
 	h.lock.Lock()
 	defer h.lock.Unlock()
 
-	if h.nextReport > h.highestAcked {
+	if !h.acked || h.nextReport > h.highestAcked {
 		return nil
 	}
 	res := make([]PacketReport, 0, h.highestAcked-h.nextReport+1)
